@@ -302,6 +302,8 @@ S0, S1 = "http://svc-0.test/graphql", "http://svc-1.test/graphql"
 CASES["regress/KF-C09-1.json"] = fault_case("process-death", "{ getHumans { name phone } }", [{"url": S0, "query": "", "occurrence": 0, "pos": 0, "kind": "array-longer"}])
 CASES["regress/KF-C09-1b.json"] = fault_case("masked", "{ getHumans { name phone } }", [{"url": S1, "query": "", "occurrence": 0, "pos": 0, "kind": "array-shorter"}])
 CASES["regress/KF-C09-2.json"] = fault_case("masked", "{ getHumans { name } }", [{"url": S0, "query": "", "occurrence": 0, "pos": 0, "kind": "data-missing"}])
+CASES["regress/KF-C13-1.json"] = exec_case("C13", "data-varies", "{ __schema { t: types { n: name } d: directives { n: name } } }")
+CASES["regress/KF-C13-1.json"]["case"].update({"repeats": 15, "fresh": 8, "delays_us": [], "gomaxprocs": 4})
 
 if __name__ == "__main__":
     import sys
